@@ -791,6 +791,8 @@ def _strategies() -> T.Any:
             assert d is not None
             if k == 'buildtype':
                 v: T.Any = draw(st.sampled_from(['plain', 'debug', 'debugoptimized', 'release', 'minsize']))
+                if m.state == 'configured' and chance(draw, 1, 3):
+                    v = m.eff('buildtype')       # stated again, unchanged: expands to nothing
             else:
                 v = value_for(draw, d)
                 if m.state == 'configured' and chance(draw, 1, 4):
@@ -1000,6 +1002,24 @@ def _strategies() -> T.Any:
                 push({'op': 'edit', 'proj': proj, 'kind': 'remove', 'name': n_, 'decl': None})
             push({'op': draw(st.sampled_from(['configure', 'reconfigure'])), 'D': [['warning_level', draw(st.sampled_from(['0', '2', '3']))]]})
             push({'op': 'introspect'})
+        if m.state == 'configured' and chance(draw, 1, 4):
+            # scripted tail 4: debug / optimization customised by the user, then the CURRENT buildtype is stated again (together
+            # with an option that really changes, on a configure and on a reconfigure), then another buildtype, then --wipe
+            bt = m.eff('buildtype')
+            if bt in R.BUILDTYPE_TABLE:
+                dbg, opt = R.BUILDTYPE_TABLE[bt]
+                myopt = draw(st.sampled_from([o for o in ['1', '2', '3', 's', 'g'] if o != opt]))
+                push({'op': 'configure', 'D': [['optimization', myopt], ['debug', 'false' if dbg else 'true']]})
+                push({'op': 'configure', 'D': [['buildtype', bt], ['werror', 'false' if m.eff('werror') else 'true']]})
+                push({'op': 'introspect'})
+                push({'op': 'reconfigure', 'D': [['buildtype', bt]]})
+                push({'op': 'introspect'})
+                if chance(draw, 1, 2):
+                    other = draw(st.sampled_from([b for b in ['plain', 'debugoptimized', 'release', 'minsize', 'debug'] if b != bt]))
+                    push({'op': 'configure', 'D': [['buildtype', other]]})
+                    push({'op': 'configure', 'D': [['optimization', draw(st.sampled_from(['1', 'g']))]]})
+                push({'op': 'wipe'})
+                push({'op': 'introspect'})
         return {'init': init, 'ops': ops, 'strict': True}
 
     return histories()
